@@ -49,6 +49,9 @@ def step (t : List String) : String :=
   | "CDS" :: rest => match ints? rest with
     | some [d, m, y] => showO (nextCDSS (mkDateS d m y))
     | _ => "bad-op"
+  | "DIM" :: rest => match ints? rest with
+    | some [m, y] => if 1 ≤ m ∧ m ≤ 12 then toString (monthLen y m) else "E:FinError"
+    | _ => "bad-op"
   | "HI" :: ops => "|".intercalate (ops.map histOp)
   | _ => "bad-op"
 
